@@ -642,6 +642,45 @@ pub fn run(tier: Tier) -> i32 {
             cases.push(Case { label: "CUSTOM:triggers_pht = 55".into(), bytes: bytes.clone(), mode: m, filter: None, errors: None, toml: false, stdin: false });
         }
     }
+    // the reader's running counters are 32 bits wide and are handed over to the collector (64 bits) on the way: the
+    // real `Stats` of the reader is driven with payload sizes {1, 9 999, 10 000, 65 535} until the total has passed
+    // 2^32 and 2^33 - what arrives at the other end of its channel adds up to the true total
+    {
+        use alice_protocol_reader::stats::{InputStatType, Stats};
+        for size in [1u16, 9_999, 10_000, 65_535] {
+            // (size 1 would need 2^33 calls: it is run up to just beyond 2^32 / 1024 calls of 1 after a pre-load near the edge)
+            let (tx, rx) = flume::unbounded();
+            let mut st = Stats::new(tx);
+            let mut truth: u64 = 0;
+            if size == 1 {
+                // pre-load close to the 32-bit edge with large payloads, then creep over it byte by byte
+                while truth + 65_535 < (1u64 << 32) - 70_000 {
+                    st.add_payload_size(65_535);
+                    truth += 65_535;
+                }
+                for _ in 0..200_000 {
+                    st.add_payload_size(1);
+                    truth += 1;
+                }
+            } else {
+                while truth < (1u64 << 33) + 100_000 {
+                    st.add_payload_size(size);
+                    truth += size as u64;
+                }
+            }
+            st.flush_stats();
+            drop(st);
+            let got: u64 = rx.try_iter().filter_map(|m| if let InputStatType::PayloadSize(n) = m { Some(n as u64) } else { None }).sum();
+            if got != truth {
+                rep.violation(Violation {
+                    signature: "stat:payload_size:beyond-32-bits".into(),
+                    description: format!("payloads of {size} bytes up to a total of {truth} bytes: the reader's statistics hand over {got} bytes in all (difference {})", truth as i128 - got as i128),
+                    replay: json!({"kind": "reader-stats", "payload_size": size}),
+                });
+            }
+        }
+        rep.cov("reader_counter_handover", json!("payload sizes 1 / 9 999 / 10 000 / 65 535 up to totals beyond 2^32 and 2^33 through the real reader Stats"));
+    }
     let res = par_map(&cases, |_, c| run_case(c));
     let mut nontrivial = 0u64;
     for (c, r) in cases.iter().zip(res.iter()) {
